@@ -1,4 +1,5 @@
 import AtreeProofs.Props.TransMapDescentInvR
+import AtreeProofs.Map.MapOps
 /-
   MAP DESCENT, round 3 (WP13): THE FINAL ASSEMBLY FOR `Set`.
   Part A/B: `Ob_MapSlab_Set_heap_of_tails'`, `Ob_OrderedMap_set_heap_of_tails'` - the `_of_tails` theorems of
@@ -364,6 +365,74 @@ theorem Ob_OrderedMap_set_heap_of_tails' (Qin : (d : Nat) → MTree r d → Prop
       obtain ⟨s3, x3, hr, hc3, hp3, hpre3, hdl3⟩ := hfin
       refine ⟨s3, x3, by rw [hgen, hr], hc3, by rw [hp3, hp2, h3], hpre3, ?_⟩
       exact (hpost.delta.trans (hids1 ▸ hdl2)).trans hdl3
+
+end
+
+/-! ### Part C: the model-side hypotheses from the map invariant -/
+
+section
+variable {T : Nat} {D : DigestFn (r + 1)} {cfg : MCfg}
+
+/-- the TIGHT invariant of the children of the path nodes (what `MetaLoose` says of the children of an index slab) plus
+    the `uint64` range of the first-level digests -/
+def mfi_Qin (T : Nat) (D : DigestFn (r + 1)) (d : Nat) (t : MTree r d) : Prop :=
+  MTreeInv T D d false t ∧ ∀ x ∈ MTree.digests0 d t, x < 2^64
+
+/-- the leaf on the path satisfies the loose data slab invariant (root or not) -/
+def mfi_L (T : Nat) (D : DigestFn (r + 1)) (sl : MDataSlab r) : Prop := ∃ top, MDataLoose T D top sl
+
+theorem mfi_Qin_MQ (hT : legalThreshold T = true) (d : Nat) (t : MTree r d) (h : mfi_Qin T D d t) : MQ T D d t := by
+  obtain ⟨hs, _, hle⟩ := (mtreeInv_false_iff hT d t).mp h.1
+  exact ⟨hs, Nat.le_trans hle (Nat.le_add_right _ _), h.2⟩
+
+/-- `hQset` for tight inputs, from `MTree.set_spec` -/
+theorem mfi_set_MQ (hT : legalThreshold T = true) (hc : CfgFor cfg T (r + 1)) {k : MKey} (hk : KeyOk T (r + 1) D k)
+    {v : Elem} (hv : ValueOkM v) (hhk : k.dig 0 < 2^64) (d : Nat) (t t' : MTree r d) (ks : MKey) (old : Option Elem)
+    (c c' : Ctx) (h : mfi_Qin T D d t) (hq : MTree.set cfg d t k v c = .ok (ks, old, t', c')) : MQ T D d t' := by
+  obtain ⟨h1, h2⟩ := MTree.set_spec hT hc hk hv d false t c h.1
+  by_cases hl : TLimited cfg d t k
+  · rw [h1 hl] at hq; cases hq
+  · obtain ⟨old', t'', c'', heq, hp⟩ := h2 hl
+    rw [heq] at hq
+    cases hq
+    refine ⟨hp.sinv, ?_, fun x hx => ?_⟩
+    · have := hp.size_le; have := slack1_le T d; have := MTreeInv.le_max d false t h.1; omega
+    · rcases hp.digs x hx with h' | h'
+      · exact h.2 x h'
+      · rw [h']; exact hhk
+
+/-- `hQRhdrs`: projection of `MetaLoose` -/
+theorem mfi_QRhdrs (d : Nat) (xr : MMetaSlab (MTree r d)) (ty cnt seed : Nat)
+    (h : MQR T D (⟨d + 1, xr, ty, cnt, seed⟩ : OMap r)) : xr.childHdrs = xr.children.map (MTree.hdr d) := by
+  have hs : SInv T D (d + 1) true xr := h.1
+  exact hs.1.2.1
+
+/-- `hmono` on a leaf satisfying the loose invariant, from `set_spec_zero` -/
+theorem mfi_mono (hT : legalThreshold T = true) (hc : CfgFor cfg T (r + 1)) {k : MKey} (hk : KeyOk T (r + 1) D k)
+    {v : Elem} (hv : ValueOkM v) (sl : MDataSlab r) (c : Ctx) (ks : MKey) (old : Option Elem) (sl' : MDataSlab r)
+    (c' : Ctx) (hL : mfi_L T D sl) (hq : MDataSlab.set cfg sl k v c = .ok (ks, old, sl', c')) : c.ctr ≤ c'.ctr := by
+  obtain ⟨top, hl⟩ := hL
+  obtain ⟨h1, h2⟩ := set_spec_zero hT hc sl hl hk hv c
+  have hq' : MTree.set cfg 0 sl k v c = .ok (ks, old, sl', c') := hq
+  by_cases hlim : TLimited cfg 0 sl k
+  · rw [h1 hlim] at hq'; cases hq'
+  · obtain ⟨old', t'', c'', heq, hp⟩ := h2 hlim
+    rw [heq] at hq'
+    cases hq'
+    exact hp.ctr
+
+theorem mfi_bound (hT : legalThreshold T = true) (d : Nat) : maxThr T + slack T d < 2^32 := by
+  have hb := map_legal_bounds hT
+  cases d with
+  | zero =>
+    simp only [slack, maxEntry, maxInlineMapElem_eq, Gen.digestSize, map_maxThr_eq]
+    omega
+  | succ d =>
+    simp only [slack, Gen.mapSlabHeaderSize, map_maxThr_eq]
+    omega
+
+theorem MQ.size_lt (hT : legalThreshold T = true) {d : Nat} {t : MTree r d} (h : MQ T D d t) :
+    (MTree.hdr d t).size < 2^32 := Nat.lt_of_le_of_lt h.size_le (mfi_bound hT d)
 
 end
 
